@@ -68,9 +68,18 @@ func sum(xs []*big.Int) *big.Int {
 
 func decimal(x *big.Int) []byte { return []byte(x.String()) }
 
-func run(L int) {
-	qa := vrt.BigNat("quotaA", 2)
-	qb := vrt.BigNat("quotaB", 2)
+// nat returns an arbitrary natural number: below 256^nbytes, or (nbytes == 0) a single decimal digit,
+// which keeps the number of decimal-length classes of the JSON records small in multi-step runs.
+func nat(name string, nbytes int) *big.Int {
+	if nbytes == 0 {
+		return big.NewInt(vrt.Int(name, 0, 9))
+	}
+	return vrt.BigNat(name, nbytes)
+}
+
+func run(L int, nbytes int) {
+	qa := nat("quotaA", nbytes)
+	qb := nat("quotaB", nbytes)
 	km := govern_token.NewKernContractMethod("xuper", 1000, []xledger.Predistribution{
 		{Address: "A", Quota: qa.String()}, {Address: "B", Quota: qb.String()}})
 	w := vkctx.NewWorld()
@@ -86,7 +95,7 @@ func run(L int) {
 	for step := 0; step < L; step++ {
 		before := snap(w)
 		op := vrt.Choice("op", 4)
-		amt := vrt.BigNat("amount", 2)
+		amt := nat("amount", nbytes)
 		var callErr error
 		changedLockOf := -1
 		switch op {
@@ -149,5 +158,6 @@ func run(L int) {
 	_ = contract.Limits{}
 }
 
-func VerifC19Quick()    { run(2) }
-func VerifC19Thorough() { run(3) }
+func VerifC19Quick()    { run(2, 0) }
+func VerifC19Thorough() { run(3, 0) }
+func VerifC19Wide()     { run(1, 3) }
